@@ -3,7 +3,7 @@ import os, subprocess, json
 from ..framework import Case, run_impl
 from .bmpref import *
 
-LEAN_MODULES = ["Op2Proofs.Props.C11_Bmp"]
+LEAN_MODULES = ["Op2Proofs.Props.C11_Bmp", "Op2Proofs.Props.C11_Gen", "Op2Proofs.Props.C08_Gen", "Op2Proofs.Props.C09_Gen"]
 RULE = ("every case runs in a forked child under ASan/UBSan/_GLIBCXX_ASSERTIONS with a watchdog; a returned object is put through "
         "EVERY public operation (Validate, both Verify*, WriteIndexed to a stream and to a file, AbsoluteHeight, orientation, "
         "InvertScanLines, SwapRedAndBlue, ValidateTileset, WriteCustomTileset), each on its own copy.  Inputs: valid BMP / custom "
@@ -18,7 +18,10 @@ PROVED = ("for ALL byte strings: C11_no_fault_load_bmp / _tileset (loading never
           "returned object none of Validate, both Verify*, WriteIndexed to stream and to file, AbsoluteHeight, InvertScanLines, ValidateTileset, "
           "WriteCustomTileset reaches one); C11_use_closed (InvertScanLines / SwapRedAndBlue return objects with the same invariants, so every "
           "sequence of operations is safe); C11_prefix_strict_bmp / _tileset (every proper prefix cutting into the consumed bytes - for a file "
-          "without trailing bytes: every proper prefix - is refused with an ordinary error, in both formats); termination by totality of the model")
+          "without trailing bytes: every proper prefix - is refused with an ordinary error, in both formats); termination by totality of the model.  "
+          "Bridging: Props/C11_Gen.lean C11_gen_create_guards (VerifyValidBitCount and VerifyDimensions as translated from the current source refuse exactly "
+          "what ImageHeader.create refuses: negative width, height INT32_MIN, invalid depth) and the lemmas of Props/C08_Gen.lean / C09_Gen.lean "
+          "(ImageHeader::Validate, the Verify* functions, ValidateTileset, the tileset header checks = the model's guards for all field values)")
 PARTIAL = ("memory safety of the C++ below the level of the model's checked primitives (the primitives sit where the code has raw "
            "pointer / iterator / signed operations; that placement is tied to the code by the sanitizer-instrumented run only); "
            "allocation failure is modelled as the ordinary error it is under the harness cap")
